@@ -24,7 +24,30 @@ def run(tier):
     nfiles, events = (2, 3000) if quick else (12, 30000)
     nev = lib.trace_step(c, rt, ["arc"], "Trace_CArc", "Trace_CArc.cfg", nfiles, events,
                          ["--slots", "6", "--allocs", "3", "--threads", "3"])
-    c.assumptions += ["interleaving granularity = one public operation (each touches the shared count through a single std atomic RMW)",
+    # impl -> spec, free-running threads (no scheduling by the driver): TLC validates a linearisation and the joined state
+    import subprocess, json as _json
+    wd = lib.workdir("c10")
+    rounds, ops = (20, 200) if quick else (300, 600)
+    conc_events = 0
+    for k in range(2 if quick else 6):
+        tr = os.path.join(wd, "conc_%d.ndjson" % k)
+        rc, summ, out = lib.run_adapter([rt, "arc", "conc", tr, "--seed", str(lib.seed() + k), "--rounds", str(rounds), "--threads", "3", "--per", "2",
+                                         "--allocs", "3", "--ops", str(ops)])
+        if rc != 0 or summ is None:
+            c.violation("free-running concurrent driver crashed (rc=%s)" % rc, None, replay_path=tr)
+            continue
+        r = lib.run_tlc("Trace_CArc", "Trace_CArc.cfg", name="trace_carc_conc", workers=1, env={"TRACE": tr}, depth_first=True, timeout=1200)
+        nev = sum(1 for _ in open(tr))
+        if r.violation or r.distinct < nev + 1:
+            evs = open(tr).read().splitlines()
+            bad = evs[r.depth - 1] if 0 < r.depth <= len(evs) else ""
+            c.violation("trace of concurrently issued operations rejected by CArc.tla at event %d: %s" % (r.depth, bad[:400]), None, replay_path=tr)
+        else:
+            conc_events += nev
+            c.cov["traces_validated_against_impl"] += 1
+            c.add_tlc("Trace_CArc.cfg (free-running threads)", r, exhaustive=False)
+    c.cov["concurrent_events_validated"] = conc_events
+    c.assumptions += ["scheduled replays: interleaving granularity = one public operation; free-running mode: 3 OS threads operate on their own handles of shared allocations at once, events are ordered by a global sequence number taken at completion (operations of different threads touch disjoint slots, so every merge that respects per-thread order is an admissible linearisation) and the counts are compared after the threads have joined",
                       "strong count is read through a std Arc retained by the environment; allocations created by From<T> are observed through destructor counts only"]
     c.finish({"behaviours_replayed": tb + tb2, "replay_steps": ts + ts2, "trace_events_validated": nev,
               "exhaustive": True, "evaluations": tb + tb2, "distinct_nontrivial": nb + nb2,
